@@ -105,9 +105,13 @@ impl Fmt for Alternations {
                 let (comments_before_or, comments) =
                     format_comments_before_token(comments, &a.or, &comment_opts_right(options));
 
-                if Line::ends_with_nl(&acc) && !comments_before_or.is_empty() {
-                    acc.clone_from(&acc.trim_end().to_owned());
-                    acc.push(' ');
+                if !comments_before_or.is_empty() {
+                    if Line::ends_with_nl(&acc) {
+                        acc.clone_from(&acc.trim_end().to_owned());
+                    }
+                    if !Line::ends_with_space(&acc) {
+                        acc.push(' ');
+                    }
                     acc.push_str(&comments_before_or);
                 }
 
